@@ -509,6 +509,34 @@ var c01PairPool = [][2]string{{"a", "v"}, {"a", "w"}, {"x-k", "1"}, {"cookie", "
 
 var c01SizeConsts = []uint32{0, 1, 31, 32, 33, 34, 35, 64, 66, 67, 70, 100, 128, 200, 300, 1000, 4095, 4096, 4097, 65536, 1<<32 - 1}
 
+// c01OtherCase returns, one time in four, the name with some letters in upper case:
+// the encoder does not normalise names, so "Content-Type" is a different name from the
+// static table's "content-type" and has to arrive as written.
+func c01OtherCase(t *rapid.T, name string) string {
+	if name == "" || rapid.IntRange(0, 3).Draw(t, "otherCase") != 0 {
+		return name
+	}
+	b := []byte(name)
+	switch rapid.IntRange(0, 2).Draw(t, "caseKind") {
+	case 0:
+		return strings.ToUpper(name)
+	case 1: // Title-Case
+		up := true
+		for i, c := range b {
+			if up && 'a' <= c && c <= 'z' {
+				b[i] = c - 32
+			}
+			up = c == '-' || c == ':'
+		}
+	default:
+		k := rapid.IntRange(0, len(b)-1).Draw(t, "caseAt")
+		if 'a' <= b[k] && b[k] <= 'z' {
+			b[k] -= 32
+		}
+	}
+	return string(b)
+}
+
 func c01FieldSize(f c01Field) uint32 { return f.hf().Size() }
 
 // c01GenCase draws a history. sensBias shifts the distribution towards sensitive fields
@@ -555,10 +583,11 @@ func c01GenCase(t *rapid.T, sensBias bool) c01Case {
 		case kind < th[2]:
 			i := rapid.SampledFrom([]int{1, 2, 3, 4, 5, 6, 7, 8, 9, 13, 15, 0, 14, 31, 60}).Draw(t, "staticPair")
 			f.N, f.V = c01Str(c01Static[i][0]), c01Str(c01Static[i][1])
+			f.N = c01Str(c01OtherCase(t, string(f.N)))
 			f.S = drawS()
 		case kind < th[3]:
 			i := rapid.IntRange(0, c01StaticLen-1).Draw(t, "staticName")
-			f.N = c01Str(c01Static[i][0])
+			f.N = c01Str(c01OtherCase(t, c01Static[i][0]))
 			f.V = c01Str(rapid.SampledFrom(c01ValuePool).Draw(t, "poolValue"))
 			f.S = drawS()
 		case kind < th[4]:
